@@ -10,6 +10,7 @@ import (
 	"encoding/hex"
 	"fmt"
 	"sort"
+	"time"
 
 	"cosmossdk.io/log"
 	"cosmossdk.io/math"
@@ -293,10 +294,14 @@ type KV struct {
 	K, V  []byte
 }
 
-// Dump returns the canonical serialisation of all four stores (sorted by store, key).
+const stHeader = 255 // pseudo-store: block header (height, unix time) when it differs from the default
+
+// Dump returns the canonical serialisation of all four stores (sorted by store, key),
+// followed by the block header if it was advanced.
 func (w *World) Dump() []byte {
 	var buf bytes.Buffer
 	var n [4]byte
+
 	for i := 0; i < nStores; i++ {
 		st := w.ctx.KVStore(w.keys[i])
 		it := st.Iterator(nil, nil)
@@ -311,6 +316,17 @@ func (w *World) Dump() []byte {
 			buf.Write(v)
 		}
 		it.Close()
+	}
+	h := w.ctx.BlockHeader()
+	if h.Height != 1 || !h.Time.IsZero() {
+		v := fmt.Sprintf("%d|%d", h.Height, h.Time.Unix())
+		buf.WriteByte(stHeader)
+		binary.BigEndian.PutUint32(n[:], 6)
+		buf.Write(n[:])
+		buf.WriteString("header")
+		binary.BigEndian.PutUint32(n[:], uint32(len(v)))
+		buf.Write(n[:])
+		buf.WriteString(v)
 	}
 	return buf.Bytes()
 }
@@ -341,9 +357,39 @@ func (w *World) Load(d []byte) {
 			w.dbs[i].DB = dbm.NewMemDB()
 		}
 	}
+	height, unix := int64(1), int64(0)
 	for _, kv := range ParseDump(d) {
+		if kv.Store == stHeader {
+			fmt.Sscanf(string(kv.V), "%d|%d", &height, &unix)
+			continue
+		}
 		w.ctx.KVStore(w.keys[kv.Store]).Set(kv.K, kv.V)
 	}
+	w.setHeader(height, unix)
+}
+
+func (w *World) setHeader(height, unix int64) {
+	h := w.ctx.BlockHeader()
+	h.Height = height
+	if unix == 0 {
+		h.Time = time.Time{}
+	} else {
+		h.Time = time.Unix(unix, 0).UTC()
+	}
+	w.ctx = w.ctx.WithBlockHeader(h)
+}
+
+// AdvanceBlocks moves the chain forward: later transactions run in a much later block.
+func (w *World) AdvanceBlocks(blocks int64, seconds int64) {
+	h := w.ctx.BlockHeader()
+	unix := int64(0)
+	if !h.Time.IsZero() {
+		unix = h.Time.Unix()
+	}
+	if unix == 0 {
+		unix = 1700000000
+	}
+	w.setHeader(h.Height+blocks, unix+seconds)
 }
 
 func HashBytes(parts ...[]byte) string {
@@ -358,14 +404,21 @@ func HashBytes(parts ...[]byte) string {
 }
 
 // DiffDumps lists keys whose value differs between two dumps (store:keyhex old->new).
+func storeName(i int) string {
+	if i == stHeader {
+		return "block"
+	}
+	return storeNames[i]
+}
+
 func DiffDumps(a, b []byte) []string {
 	ma := map[string][]byte{}
 	for _, kv := range ParseDump(a) {
-		ma[fmt.Sprintf("%s:%x", storeNames[kv.Store], kv.K)] = kv.V
+		ma[fmt.Sprintf("%s:%x", storeName(kv.Store), kv.K)] = kv.V
 	}
 	var out []string
 	for _, kv := range ParseDump(b) {
-		id := fmt.Sprintf("%s:%x", storeNames[kv.Store], kv.K)
+		id := fmt.Sprintf("%s:%x", storeName(kv.Store), kv.K)
 		old, ok := ma[id]
 		if !ok {
 			out = append(out, fmt.Sprintf("+%s (%q)=%x", id, printable(kv.K), kv.V))
